@@ -294,6 +294,13 @@ def _do_inline(fj, b, i, e, call, hj):
     # ---- split the caller's block
     tail = b["elems"][i:]
     cn = call.get("n")
+    cl = tuple(call.get("l") or ())
+    cfn = call.get("fn")
+
+    def same_call(n):
+        # the same call expression appears again in enclosing elements and in the terminator (the CFG lists
+        # sub-expressions first); those copies carry the same source position
+        return n.get("k") == "Call" and n.get("fn") == cfn and (n.get("n") == cn or (cl and tuple(n.get("l") or ()) == cl))
     repl = {"k": "Ref", "ref": retref, "t": call.get("t") or ret_t, "l": call.get("l")}
 
     def sub(n):
@@ -301,14 +308,14 @@ def _do_inline(fj, b, i, e, call, hj):
             return [sub(v) for v in n]
         if not isinstance(n, dict):
             return n
-        if n.get("k") == "Call" and n.get("n") == cn:
+        if same_call(n):
             r = dict(repl)
             r["n"] = n.get("n")
             return r
         return {k: (sub(v) if k in ("a", "init", "cond", "callee", "decls") else v) for k, v in n.items()}
     newtail = []
     for el in tail:
-        if el.get("k") == "Call" and el.get("n") == cn:
+        if same_call(el):
             continue                    # the call as a statement of its own: its effect is the inlined body
         newtail.append(sub(el))
     b2 = {"id": b2id, "elems": newtail, "succs": b["succs"]}
@@ -330,8 +337,8 @@ def _do_inline(fj, b, i, e, call, hj):
     for bb in cfg["blocks"]:
         if bb is b2:
             continue
-        if any(x.get("k") == "Call" and x.get("n") == cn for x in _walk(bb.get("elems", [])) ) or \
-                (bb.get("term") and any(x.get("k") == "Call" and x.get("n") == cn for x in _walk(bb["term"]))):
+        if any(same_call(x) for x in _walk(bb.get("elems", []))) or \
+                (bb.get("term") and any(same_call(x) for x in _walk(bb["term"]))):
             bb["elems"] = [sub(el) for el in bb.get("elems", [])]
             if bb.get("term") and bb["term"].get("cond") is not None:
                 bb["term"]["cond"] = sub(bb["term"]["cond"])
